@@ -116,7 +116,7 @@ def rule_k1(ctx: Ctx) -> None:
         ctx.violation("C06-K1", f, cond, f"the two conjuncts are {sorted(calls)}; both is_shaded and is_pointfree are required")
         return
     if calls["is_shaded"] != calls["is_pointfree"]:
-        ctx.violation("C06-K1", f, cond, f"is_shaded is asked about {calls['is_shaded']} but is_pointfree about {calls['is_pointfree']}: the two tests must see the same region")
+        ctx.violation("C06-K1", f, cond, f"is_shaded is asked about {calls['is_shaded']} but is_pointfree about {calls['is_pointfree']}: the two tests must see the same region", robust=True)
         return
     ctx.ok("C06-K1", f.where, f"cell ({xs}, {ys}) shaded iff is_shaded(R) and is_pointfree(R) for the same region R, for every cell of the induced grid", cond, f)
     rets = [st for st in f.body if isinstance(st, ast.Return)]
@@ -156,7 +156,7 @@ def rule_k3(ctx: Ctx) -> None:
     for fd in sub.findings:
         if ":MeshPatt." in fd.where:
             fi = ctx.repo.funcs[fd.where]
-            ctx.violation("C06-K3", fi, fi.node, fd.message)
+            ctx.violation("C06-K3", fi, fi.node, fd.message, robust=True)
     if sub.undecided:
         raise AnalysisError("; ".join(sub.undecided))
 
